@@ -294,6 +294,9 @@ def e2e_case(draw, broker):
          "args": args, "bucket": draw(st.booleans()) if broker in ("mem", "redis", "amqp") else False,
          # (the bucket must outlive the scenario, ~25 virtual seconds; an expired argument bucket is outside this property)
          "args_ttl_us": draw(opt(st.integers(120 * US, 10**10))), "phase_us": draw(st.integers(0, 999_999))}
+    # a second job, enqueued over another connection after the first one was executed; with bucket transport it re-uses the
+    # first job's explicit args_id (the documented way of sharing / replacing stored arguments)
+    c["second"] = draw(st.one_of(st.none(), st.dictionaries(ARG_KEYS, rich_value, min_size=1, max_size=3)))
     if broker != "mem":
         c["lat"] = draw(st.lists(st.sampled_from([0.0, 0.001]), max_size=6))
     return c
@@ -392,6 +395,30 @@ async def _e2e(loop, c, out: Outcome):
         out.v("not-executed", f"actor ran {len(got)} times")
     elif isinstance(expected, dict) and got[0] != expected:
         out.v("actor-arguments", f"actor received {got[0]!r}, expected {expected!r}", broker=c["broker"])
+    if c.get("second") is not None and len(got) == 1:
+        args2 = materialise(c["second"])
+        if c["broker"] == "amqp":
+            prod = conn  # (the AMQP environment has per-connection in-memory bucket brokers: nothing is shared between connections)
+        else:
+            prod = env.connection("p1", None, buckets=True)
+            await prod.connect()
+        kw2 = {"name": c["name"], "queue": c["queue"], "id_": c["id"] + "-2", "args": args2, "use_args_bucketer": c["bucket"],
+               "_connection": prod}
+        if c["bucket"]:
+            kw2["args_id"] = "args-" + c["id"]
+        await Job(**kw2).enqueue()
+        w2 = Worker(routers=[router], messages_limit=1, handle_signals=[], _connection=conn)
+        try:
+            await asyncio.wait_for(w2.run(), timeout=20.0)
+        except asyncio.TimeoutError:
+            out.v("not-executed", "worker did not execute the second job within 20 s")
+            return
+        if len(got) != 2:
+            out.v("not-executed", f"actor ran {len(got) - 1} times for the second job")
+        elif got[1] != normalise(args2):
+            out.v("actor-arguments", f"second job (same args_id: {c['bucket']}) - actor received {got[1]!r}, expected {normalise(args2)!r}; "
+                  f"first job's arguments were {got[0]!r}", broker=c["broker"], second=True)
+        out.cls("second-job-shared-args-id" if c["bucket"] and args is not None else "second-job")
     nondef = sum(x is not None for x in (c["ttl_us"], c["deferred_until_ago_us"], c["result_ttl_us"])) + (c["retries"] > 0) + \
         (c["timeout_us"] != 600 * US) + c["store_result"]
     out.nontrivial = nondef >= 3 or (args is not None and _depth(c["args"]) >= 2) or (c["bucket"] and args is not None)
